@@ -329,3 +329,43 @@ mark(9);`
 	}
 	symx.Reach("end")
 }
+
+// H_messages: every throwable keeps its own message: constructing a second exception (of any
+// class) before the first one is thrown changes neither what the handler sees nor what the
+// objects report afterwards; a non-string message is a value, not a crash.
+func H_messages() {
+	names := []string{"E1", "E2", "E3", "Exception"}
+	x, y := symx.Choose("first", 4), symx.Choose("second", 4)
+	third := symx.Choose("third", 3) // 0 none, 1 a third object built inside the handler, 2 an int message
+	src := classes + `
+$x = new ` + names[x] + `("a");
+$y = new ` + names[y] + `("b");
+try { throw $x; }
+catch (Exception $o) {
+  ` + []string{"", "$z = new E3(\"c\");", "$z = new Exception(5);"}[third] + `
+  emit($o->getMessage());
+}
+finally { mark(2); }
+emit($x->getMessage());
+emit($y->getMessage());
+mark(9);`
+	s := sx.Compile(src)
+	symx.Assert(s.Err == nil, "messages template parses")
+	if s.Err != nil {
+		return
+	}
+	_, ctl := s.Run()
+	symx.Assert(ctl == nil, "messages template runs")
+	if ctl != nil {
+		return
+	}
+	want := []sx.Obs{{Kind: 's', S: "a"}, {Kind: 'M', I: 2}, {Kind: 's', S: "a"}, {Kind: 's', S: "b"}, {Kind: 'M', I: 9}}
+	symx.Assert(len(sx.Log) == len(want), "messages: trace length")
+	if len(sx.Log) != len(want) {
+		return
+	}
+	for i := range want {
+		symx.Assert(sx.Log[i].Kind == want[i].Kind && sx.Log[i].I == want[i].I && sx.Log[i].S == want[i].S, "messages: each throwable reports the message it was constructed with")
+	}
+	symx.Reach("end")
+}
